@@ -142,14 +142,15 @@ pub fn reset_violation() {
 // ------------------------------------------------------------------------------------------------
 // generator
 
-const ALPHA: [&[char]; 3] = [
+const ALPHA: [&[char]; 4] = [
     &['a', 'b', 'c', 'd', 'é', 'ß', '€'],
     &['A', 'B', 'C', 'D', 'Ω', 'Ж', '世'],
     &['0', '1', '2', '3', 'ñ', 'あ', '🦀'],
+    &['w', 'x', 'y', 'z', 'ж', '界', '😀'],
 ];
 
 fn party_char(rng: &mut Rng, party: usize) -> char {
-    *rng.pick(ALPHA[party % 3])
+    *rng.pick(ALPHA[party % 4])
 }
 
 fn party_text(rng: &mut Rng, party: usize, n: usize) -> String {
@@ -229,6 +230,11 @@ impl ThreadGen<'_> {
 
 /// Program number `index` of the run with seed `seed`.
 pub fn gen_program(seed: u64, index: u64, faults: bool) -> Program {
+    gen_program_sized(seed, index, faults, false)
+}
+
+/// `long`: up to 3 spawned threads and up to 8 operations per party (thorough tier).
+pub fn gen_program_sized(seed: u64, index: u64, faults: bool, long: bool) -> Program {
     let mut rng = Rng::new(super::rng::mix(seed, super::rng::domain("conc-program"), index));
     let rng = &mut rng;
     let init = match rng.below(10) {
@@ -249,7 +255,7 @@ pub fn gen_program(seed: u64, index: u64, faults: bool) -> Program {
             text_of_len(rng, n, mixed)
         }
     };
-    let n_threads = if rng.chance(2, 3) { 1 } else { 2 };
+    let n_threads = if long { rng.range(1, 3) } else if rng.chance(2, 3) { 1 } else { 2 };
     // number of handles on the root buffer when the threads start: 2 (50%), 3 (30%), 4+ (20%)
     let holders = match rng.below(10) {
         0..=4 => 2,
@@ -269,7 +275,7 @@ pub fn gen_program(seed: u64, index: u64, faults: bool) -> Program {
             Some(n) => text[..n].to_string(),
             None => text.clone(),
         };
-        let n_ops = rng.range(1, 4);
+        let n_ops = if long { rng.range(2, 8) } else { rng.range(1, 4) };
         let mut g = ThreadGen { rng, party: t + 1, models: vec![Some(start)], has_shared: shared_ref, shared_text: &text, faults };
         let ops = (0..n_ops).map(|_| g.op()).collect();
         threads.push(ThreadProg { from_shared, pre_truncate, ops });
@@ -278,7 +284,7 @@ pub fn gen_program(seed: u64, index: u64, faults: bool) -> Program {
     // the spawned threads own the buffer) or mutating its own handle
     let mut models: Vec<Option<String>> = if shared_only { Vec::new() } else { (0..1 + extra_holders).map(|_| Some(text.clone())).collect() };
     let mut main_ops = Vec::new();
-    let n_main = rng.range(0, 4);
+    let n_main = if long { rng.range(0, 8) } else { rng.range(0, 4) };
     {
         let mut g = ThreadGen { rng, party: 0, models: std::mem::take(&mut models), has_shared: shared_ref, shared_text: &text, faults };
         for _ in 0..n_main {
